@@ -35,6 +35,7 @@ def parse(argv):
     if not pos:
         raise SystemExit("usage: check <C07|C11|C18|selftest> [--tier quick|thorough] [--seed N] [--replay F]")
     opts["what"] = pos[0]
+    opts["pos"] = pos
     if opts["tier"] not in ("quick", "thorough"):
         raise SystemExit("bad tier")
     if opts["seed"] is None:
@@ -65,6 +66,10 @@ def main():
             from sim import c07
 
             rc = c07.replay(opts["replay"]) if opts["replay"] else c07.main(opts)
+        elif what == "digest":
+            from sim import selftest
+
+            rc = selftest.digest_mode(opts["pos"][1], int(opts["pos"][2]), opts["seed"])
         elif what == "selftest":
             from sim import selftest
 
